@@ -42,6 +42,13 @@ Checks(e) ==
                                        /\ ReplyClass(e.denv.ty) = "err" => (e.rr.ec = "err" /\ e.ic.ec = "err")>>,
       <<"client-returns-the-reply", e.denv.ty = 2 => (e.rr.seq = e.denv.seq /\ e.rr.body = e.denv.body /\ e.ic.body = e.denv.body)>>,
       <<"client-sends-a-call", e.ic.sent = ClientCall(<<109>>, ReplyBody)>>,
+      <<"multiplex-routes-by-the-first-colon",
+           LET r == Route(e.denv.name, { <<97>>, <<>> }) IN
+           /\ e.mx.ok /\ e.mx.routed = r.ok
+           /\ r.ok => (e.mx.svc = r.svc /\ e.mx.method = r.method
+                       /\ e.mx.reply = ServerReplyHeader(e.denv.name, e.denv.seq, FALSE) \o Enc(ReplyBody))
+           /\ ~r.ok => IsPrefix(ServerReplyHeader(e.denv.name, e.denv.seq, TRUE), e.mx.reply)
+           /\ e.mcsent = ClientCall(<<83, 118, 99, 58, 109>>, ReplyBody)>>,
       <<"plugin-server-echoes", /\ e.is.ok /\ e.is.reply = ServerReplyHeader(e.denv.name, e.denv.seq, FALSE) \o Enc(ReplyBody)
                                 /\ e.isf.ok /\ IsPrefix(ServerReplyHeader(e.denv.name, e.denv.seq, TRUE), e.isf.reply)>> }
    ELSE {})
